@@ -1,4 +1,4 @@
-(* Props/C20Builder.v - property C20 (also C03/C05/C17/C18): the builder keeps the forest invariant on every input of the claimed class (BuilderWF.v, ForestFacts.v)
+(* Props/C20Builder.v - property C20 (also C03/C05/C17/C18): the builder keeps the forest invariant on EVERY input (BuilderWF.v, ForestFacts.v)
    Only statements, each closed by an `exact`, pinned by a `Check`, followed by `Print Assumptions`. *)
 From Coq Require Import ZArith Permutation List.
 From IweV Require Import Str Ast RelPath Arena ArenaWF ArenaFacts Project Library BuilderFacts SectionsFacts Check_Norm ForestFacts BuilderWF.
@@ -8,7 +8,6 @@ Local Open Scope list_scope.
 Theorem C20_build_document_wf :
   forall (a : arena) (key : string) (bs : list dblock),
          arena_ok a = true ->
-         Forall (fun b : dblock => plain_items b = true) bs ->
          exists st : bst,
            build_document a key bs = Ok st /\
            arena_ok (b_arena st) = true /\
@@ -24,7 +23,6 @@ Proof. exact BuilderWF.build_document_wf. Qed.
 Check C20_build_document_wf :
   forall (a : arena) (key : string) (bs : list dblock),
          arena_ok a = true ->
-         Forall (fun b : dblock => plain_items b = true) bs ->
          exists st : bst,
            build_document a key bs = Ok st /\
            arena_ok (b_arena st) = true /\
@@ -41,7 +39,6 @@ Print Assumptions C20_build_document_wf.
 Theorem C20_build_document_owned :
   forall (a : arena) (key : string) (bs : list dblock),
          arena_ok a = true ->
-         Forall (fun b : dblock => plain_items b = true) bs ->
          exists st : bst,
            build_document a key bs = Ok st /\
            (forall id : nat,
@@ -54,7 +51,6 @@ Proof. exact BuilderWF.build_document_owned. Qed.
 Check C20_build_document_owned :
   forall (a : arena) (key : string) (bs : list dblock),
          arena_ok a = true ->
-         Forall (fun b : dblock => plain_items b = true) bs ->
          exists st : bst,
            build_document a key bs = Ok st /\
            (forall id : nat,
@@ -68,7 +64,6 @@ Print Assumptions C20_build_document_owned.
 Theorem C20_from_blocks_wf :
   forall (g : graph) (key : string) (meta : option string) (bs : list dblock),
          arena_ok (gr_arena g) = true ->
-         Forall (fun b : dblock => plain_items b = true) bs ->
          exists g' : graph,
            from_blocks g key meta bs = Ok g' /\
            arena_ok (gr_arena g') = true /\
@@ -77,7 +72,6 @@ Proof. exact BuilderWF.from_blocks_wf. Qed.
 Check C20_from_blocks_wf :
   forall (g : graph) (key : string) (meta : option string) (bs : list dblock),
          arena_ok (gr_arena g) = true ->
-         Forall (fun b : dblock => plain_items b = true) bs ->
          exists g' : graph,
            from_blocks g key meta bs = Ok g' /\
            arena_ok (gr_arena g') = true /\
@@ -86,35 +80,25 @@ Print Assumptions C20_from_blocks_wf.
 
 Theorem C20_import_wf :
   forall notes : list (string * option string * list dblock),
-         Forall note_plain notes ->
          exists g : graph, import notes = Ok g /\ arena_ok (gr_arena g) = true.
 Proof. exact BuilderWF.import_wf. Qed.
 Check C20_import_wf :
   forall notes : list (string * option string * list dblock),
-         Forall note_plain notes ->
          exists g : graph, import notes = Ok g /\ arena_ok (gr_arena g) = true.
 Print Assumptions C20_import_wf.
 
-Theorem C20_itemlead_refuted :
+Theorem C20_itemlead :
   exists st : bst,
            build_document [] "n" itemlead_witness = Ok st /\
-           forallb plain_items itemlead_witness = false /\
-           forallb item_leads_ok itemlead_witness = true /\
-           arena_ok (b_arena st) = false /\
-           live (b_arena st) 3 = true /\
-           existsb (Nat.eqb 3) (subtree_ids (S (Datatypes.length (b_arena st))) (b_arena st) 0) =
-           false.
-Proof. exact BuilderWF.build_document_itemlead_refuted. Qed.
-Check C20_itemlead_refuted :
+           arena_ok (b_arena st) = true /\
+           subtree_ids (S (Datatypes.length (b_arena st))) (b_arena st) 0 = [0; 1; 2; 3; 4; 5; 6].
+Proof. exact BuilderWF.build_document_itemlead. Qed.
+Check C20_itemlead :
   exists st : bst,
            build_document [] "n" itemlead_witness = Ok st /\
-           forallb plain_items itemlead_witness = false /\
-           forallb item_leads_ok itemlead_witness = true /\
-           arena_ok (b_arena st) = false /\
-           live (b_arena st) 3 = true /\
-           existsb (Nat.eqb 3) (subtree_ids (S (Datatypes.length (b_arena st))) (b_arena st) 0) =
-           false.
-Print Assumptions C20_itemlead_refuted.
+           arena_ok (b_arena st) = true /\
+           subtree_ids (S (Datatypes.length (b_arena st))) (b_arena st) 0 = [0; 1; 2; 3; 4; 5; 6].
+Print Assumptions C20_itemlead.
 
 Theorem C20_subtree_sound :
   forall a : arena,
